@@ -31,7 +31,7 @@ RULE = ('2-4 real clients on the real built-in bus; 1-2 exporters with generated
         'with arbitrary read splitting and stalls')
 STATE_MEASURE = 'distinct (clients, proxy kind, calls in flight, outcome kind) tuples'
 PROBES = ['proxy-introspected', 'proxy-explicit', 'proxy-by-name', 'three-calls-in-flight',
-          'two-callers-one-exporter', 'participant-attached-after-another-left', 'name-handed-over-then-introspected-again', 'remote-error-mirrored', 'call-to-second-exporter',
+          'two-callers-one-exporter', 'participant-attached-after-another-left', 'name-handed-over-then-introspected-again', 'successor-redefines-the-same-interface-names', 'name-owner-disconnected-successor-takes-over', 'remote-error-mirrored', 'call-to-second-exporter',
           'same-serial-two-clients', 'exporter-calls-itself-through-bus', 'big-endian-foreign-call', 'implementation-answers-later',
           'late-answers-out-of-order', 'proxy-with-reordered-or-partial-interfaces',
           'proxy-call-without-interface', 'proxy-introspected-replacing-cache',
@@ -356,9 +356,26 @@ def scenario(ctx):
         new = cand[ds.choose(len(cand))]
         old = s['exp']
         sim.log('op', 'handover', s['name'], old['name'], new['name'])
-        rel = Obs(sim, 'release').watch(rig.call(old, old['proto'].releaseBusName, s['name']))
+        leaves = (not any(p['owner'] is old for p in proxies) and old not in callers
+                  and not any(x is not s and x['exp'] is old for x in services) and ds.flag(0.5))
+        if leaves:
+            # the owner goes away altogether (a service restart); its unique name dies with it
+            sim.probe('name-owner-disconnected-successor-takes-over')
+            rel = Obs(sim, 'release')
+            rig.call(old, old['proto'].disconnect)
+            for p in proxies:
+                if p['svc'] is s:
+                    p['retired'] = True
+        else:
+            rel = Obs(sim, 'release').watch(rig.call(old, old['proto'].releaseBusName, s['name']))
         rig.calm()
-        cs2, path2 = make_exporter(new, 'Y%d' % services.index(s), path=s['path'])
+        # the successor is another service, or a newer version of the same one: the same interface
+        # names with other members (callers then ask for cached definitions to be replaced, and
+        # what they still hold for the old owner's unique name must keep working)
+        newer = not any(p['owner'] is new and p['svc'] is s for p in proxies) and ds.flag(0.4)
+        if newer:
+            sim.probe('successor-redefines-the-same-interface-names')
+        cs2, path2 = make_exporter(new, ('X%d' if newer else 'Y%d') % services.index(s), path=s['path'])
         acq = Obs(sim, 'acquire').watch(rig.call(new, new['proto'].requestBusName, s['name']))
         rig.calm()
         if not (acq.fired and acq.fired[0][0] == 'ok' and acq.fired[0][1] == 1):
@@ -374,7 +391,7 @@ def scenario(ctx):
                 if p['owner'] not in owners and p['kind'].startswith('introspect'):
                     owners.append(p['owner'])
         for c in owners or callers[:1]:
-            get_proxy(c, s2, force_kind='introspect')
+            get_proxy(c, s2, force_kind='introspect-replace' if newer else 'introspect')
         sim.probe('name-handed-over-then-introspected-again')
         sched.run(300, None, invariant)
         sched.drain(600, None, invariant)
